@@ -35,6 +35,11 @@ Families ==
                 k \in {"point", "line", "polygon", "polyhole", "multipoint", "multipolygon", "collection"}, v \in {0, 1}, c \in {NoCrs, CrsA, CrsA2, CrsB}},
     tiles |-> {[t |-> "tiles", base |-> b, tile |-> s] : b \in {<<10, 10>>, <<11, 10>>, <<10, 11>>, <<12, 12>>, <<8, 8>>}, s \in {<<4, 4>>, <<4, 5>>, <<5, 4>>, <<12, 12>>}},
     vtiles |-> {[t |-> "vtiles", cy |-> cy, cx |-> cx] : cy \in {<<4, 4, 2>>, <<4, 4, 3>>, <<4, 6>>, <<10>>, <<2, 4, 4>>}, cx \in {<<5, 5>>, <<5, 6>>, <<10>>}},
+    \* chunk tuples whose concatenation (rows then columns) is one sequence cut at different places; zero-sized chunks (legal in dask arrays) at the cut:
+    \* a token / hash / pickle built from a FLATTENED form cannot tell them apart
+    vtiles2 |-> {[t |-> "vtiles", cy |-> cy, cx |-> cx] : cy \in {<<1, 2>>, <<1>>, <<1, 2, 3>>, <<3>>, <<6>>, <<6, 0>>}, cx \in {<<3>>, <<2, 3>>, <<1, 2, 3>>, <<0, 6>>, <<6>>}},
+    gbvtiles |-> {[t |-> "gbvtiles", aff |-> a, crs |-> CrsA, cy |-> cy, cx |-> cx] :
+                   a \in {"northup", "shifted"}, cy \in {<<6>>, <<2, 4>>, <<4, 2>>, <<6, 0>>, <<0, 6>>}, cx \in {<<6>>, <<0, 6>>, <<6, 0>>, <<3, 3>>}},
     gbtiles |-> {[t |-> "gbtiles", shape |-> s, aff |-> a, crs |-> c, tile |-> ts] :
                   s \in {<<8, 8>>, <<9, 8>>}, a \in {"northup", "shifted", "tiny_c", "tiny_e"}, c \in {CrsA, CrsA2, CrsB}, ts \in {<<4, 4>>, <<4, 3>>}},
     xy |-> {[t |-> k, x |-> x, y |-> y] : k \in {"xy"}, x \in {0, 1, 2}, y \in {0, 1, 2}},
